@@ -51,6 +51,8 @@ TraceStats g_stats;
 std::function<void( RunStatus )> g_on_abort;
 int g_low_prio = 0;
 int g_idle_rounds = 0;
+int g_last_run = -1;
+uint64_t g_consecutive = 0;
 
 thread_local int tls_tid = -1;
 thread_local bool tls_quiet = false;
@@ -161,6 +163,16 @@ int decide( int me )
 {
     if ( g_step >= g_cfg.budget )
         abort_case( ST_BUDGET );
+    // fairness: a thread that has run very long without a break while others are runnable is most likely
+    // spinning in a loop that has no back-off call; demote it as if it had yielded (deterministic, replays stay valid)
+    if ( me >= 0 && me == g_last_run ) {
+        if ( ++g_consecutive > 1500 && g_cfg.mode != M_REPLAY ) {
+            g_yielded[me] = true;
+            if ( g_cfg.mode == M_PCT ) g_prio[me] = --g_low_prio;
+            g_consecutive = 0;
+        }
+    }
+    else { g_last_run = me; g_consecutive = 0; }
     int next = choose( me );
     g_sched.push_back( next );
     ++g_step;
@@ -285,7 +297,7 @@ RunStatus run_case( int nthreads, std::function<void( int )> const& body, SchedC
     g_cfg = cfg;
     g_rng = Rng( cfg.seed * 0x2545F4914F6CDD1Dull + 12345 );
     g_n = nthreads;
-    g_ndone = 0; g_step = 0; g_clock = 0; g_low_prio = 0; g_idle_rounds = 0;
+    g_ndone = 0; g_step = 0; g_clock = 0; g_low_prio = 0; g_idle_rounds = 0; g_last_run = -1; g_consecutive = 0;
     g_sched.clear(); g_trace.clear(); g_notes.clear();
     g_stats = TraceStats();
     g_on_abort = on_abort;
